@@ -280,10 +280,20 @@ fn validate_nodata_response(
     // 5. Name is serviced by wildcard that doesn't have a record of this type
 
     let (hashed_query_name, base32_hashed_query_name) = cx.hash_and_label(&cx.query.name);
-    let query_name_record = cx
-        .nsec3s
-        .iter()
-        .find(|record| record.base32_hashed_name == base32_hashed_query_name);
+
+    // An answer RRSIG with fewer labels than the query name means the answer was expanded from a
+    // wildcard. Such a response is only ever validated by case 4 (RFC 5155 section 8.8): an NSEC3
+    // record matching (or opt-out covering) the query name cannot justify the expansion.
+    let is_wildcard_expansion = wildcard_encloser_num_labels
+        .is_some_and(|num_labels| num_labels < cx.query.name.num_labels());
+
+    let query_name_record = match is_wildcard_expansion {
+        true => None,
+        false => cx
+            .nsec3s
+            .iter()
+            .find(|record| record.base32_hashed_name == base32_hashed_query_name),
+    };
 
     // Case 2:
     // Name exists but there's no record of this type
@@ -371,7 +381,8 @@ fn validate_nodata_response(
     // *Note*: the case of an opt-out NSEC3 record having the same original owner
     // name as the hashed query name and not having the DS bit set in the type flags
     // is covered here by case 2.
-    if query_type == RecordType::DS
+    if !is_wildcard_expansion
+        && query_type == RecordType::DS
         && find_covering_record(cx.nsec3s, &hashed_query_name, &base32_hashed_query_name)
             .is_some_and(|x| x.nsec3_data.opt_out())
     {
